@@ -198,7 +198,14 @@ def rule_S_PLAIN_EFF(ctx, repo):
     allowed = {'load': {'AREAD', 'AREADMISS'}, 'dump': {'AUPDATE'}, 'sync': {'ACLEAR', 'AUPDATE', 'AREAD', 'AREADMISS'},
                'archived': {'REBIND', 'AREAD'}, 'open': {'REBIND', 'AREAD'}, 'drop': {'REBIND', 'AREAD'}, '__init__': {'REBIND'},
                'to_frame': {'AREAD'}, '__repr__': set(), 'popkeys': set()}
+    accessors = set()
+    for g, st_ in ci.properties.values():
+        for f_ in (g, st_):
+            if f_ is not None:
+                accessors.add(f_.name)
     for name, fi in sorted(ci.methods.items()):
+        if name.startswith('_') and not name.endswith('__') and name not in accessors:
+            continue      # a private helper method: its effects are judged in the public methods that call it (it is inlined there)
         if name.startswith('_') and name not in ('__init__', '__repr__'):
             # private property helpers: getters may rebind a corrupted slot, setter rebinding is their job
             allow = {'REBIND', 'AREAD'}
